@@ -1,5 +1,6 @@
 /- Spec driver for C06: evaluates only `FinVerif.Spec.C06` (no model, nothing generated), at Float. -/
 import FinVerif.Driver.C06Parse
+import FinVerif.Spec.C06x
 open FinVerif FinVerif.Driver FinVerif.Driver.C06P FinVerif.Spec.C06
 
 def pFlow : P (Flow Float) := do
@@ -13,9 +14,26 @@ def opPv : P String := do
   let df ← pCurve
   pure (showFloat (signed isPay (pv df vd flows)))
 
+/-- `EQ isPay vd price qty L0 n (start stop pay yf ia)* df dfI dvd` → signed Σ of the equity leg's flows (`eqFlows`). -/
+def opEq : P String := do
+  let isPay ← pBool; let vd ← pInt; let price ← pFloat; let qty ← pFloat; let l0 ← pFloat
+  let eps ← pList (do let p ← pPeriod; let ia ← pFloat; pure (p, ia))
+  let df ← pCurve; let dfI ← pCurve; let dvd ← pCurve
+  let iyf : Int → Int → Float := fun a b =>
+    match eps.find? (fun e => e.1.start == a && e.1.stop == b) with | some e => e.2 | none => nan
+  pure (showFloat (signed isPay (pv df vd (eqFlows dfI iyf dvd price qty vd 1.0 l0 (eps.map (·.1))))))
+
+/-- `RN m i n resets…` → the notional of floating period `i` (`rateNotional`: reset `i / m`), `none` past the end. -/
+def opRn : P String := do
+  let m ← pNat; let i ← pNat
+  let rs ← pList pFloat
+  pure (match rateNotional m rs i with | some x => showFloat x | none => "none")
+
 def step (t : List String) : String :=
   let r := match t with
     | "PV" :: a => run opPv a
+    | "EQ" :: a => run opEq a
+    | "RN" :: a => run opRn a
     | _ => none
   r.getD "bad-op"
 
